@@ -381,6 +381,45 @@ def structural(chk, prog):
                       f.loc(mm[0]))
 
 
+def o7_allocation(chk, prog):
+    """Engine C takes the buffer as a region of N bytes.  That is a fact about the constructors, established here:
+    every constructor instantiation of ReadBuffer<N,P>/WriteBuffer<N,P> initialises mpBuffer with
+    `new unsigned char[ S]`, S a constant of at least N (the invariants allow mWritePos == N / mDataEnd == N, i.e.
+    byte N-1 is used), and nothing re-seats mpBuffer afterwards."""
+    n = 0
+    for f in prog.functions:
+        if (f.classq or '') not in ('celma::common::ReadBuffer', 'celma::common::WriteBuffer') or not f.inits:
+            continue
+        if f.short not in ('ReadBuffer', 'WriteBuffer'):
+            continue
+        N = template_n(f)
+        if N is None:
+            continue
+        for i in f.inits:
+            if i.get('kind') != 'member' or i.get('name') != 'mpBuffer':
+                continue
+            n += 1
+            news = [x for x in walk(i.get('init') or {}) if x.get('k') == 'CXXNewExpr']
+            size = None
+            if len(news) == 1 and news[0].get('array'):
+                kids = children(news[0])
+                if kids and isinstance(kids[0], dict):
+                    size = strip_all_casts(kids[0]).get('cv', kids[0].get('cv'))
+            chk.check(size is not None and size >= N, 'O7', f.name,
+                      'the internal buffer is allocated with at least N = %d bytes' % N, f.loc(),
+                      'allocated size is %s: the invariants of O1 let the members use all bytes 0 .. N-1' % size)
+    chk.require(n >= 4, 'buffer constructor instantiations with an mpBuffer initialiser: %d' % n)
+    for f in prog.functions:
+        if (f.classq or '') not in ('celma::common::ReadBuffer', 'celma::common::WriteBuffer'):
+            continue
+        for x in f.walk():
+            if x.get('k') == 'BinaryOperator' and x.get('op') == '=' and field_name(children(x)[0]) == 'mpBuffer':
+                chk.check(False, 'O7', f.name, 'mpBuffer is never re-seated after construction', f.loc(x))
+            if x.get('k') in CALL_KINDS and (x.get('callee') or '').split('(')[0].endswith('::reset') and \
+                    field_name(object_of(x)) == 'mpBuffer':
+                chk.check(False, 'O7', f.name, 'mpBuffer is never re-seated after construction', f.loc(x))
+
+
 def run(chk):
     drv = os.path.join(VERIF, 'drivers', 'buffers.cpp')
     extra = ['-DVERIF_THOROUGH'] if chk.tier == 'thorough' else []
@@ -404,6 +443,8 @@ def run(chk):
     chk.rule('O4', 'byte-stream fidelity: in-order, exactly-once delivery proved by content invariants', 60)
     chk.rule('O5', 'read requests are refused exactly when they are larger than the buffer', 8)
     chk.rule('O6', 'a sink that throws loses nothing: buffered bytes stay buffered (invariants at the exceptional exit)', 4)
+    chk.rule('O7', 'the internal buffer has the N bytes the bounds analysis relies on', 4)
+    o7_allocation(chk, prog)
     eng = make_engine(prog)
     targets = [f for f in prog.functions if (f.classq or '') in ('celma::common::ReadBuffer', 'celma::common::WriteBuffer')
                and f.short in ('get', 'append', 'flush', 'buffered')]     # fillBuffer is private: analysed inlined
